@@ -33,6 +33,31 @@ CHECKS = {
         "Well-formed one-axis dimensions only.",
         "7 (C14)",
     ),
+    "C03": (
+        "exploration", "enum",
+        "bounded-exhaustive enumeration of cubes x calls; three-way agreement of index cube, array cube and a plain-Python per-cell group-by",
+        "Every data vector and every common value per dimension (0..3 dims, <=3-4 rows, 2-3 categories) is crossed with every call in a structured space: 4 aggregates x "
+        "2 policies x weights (none, scalars 2/0/NaN, arrays over {positive,0,missing}^N, (values,validity) forms) x facts (1-3 columns, 4 representations, missing "
+        "patterns); the array cube is given int64 data with explicit shape and the unsigned dtype an index converts to with inferred shape. ~0.8M library evaluations quick, ~50M thorough.",
+        "Row counts <= 4; fact values from exact alphabets; weights below the documented zero-snapping threshold excluded.",
+        "3, 7 (C03)",
+    ),
+    "C04": (
+        "exploration", "enum",
+        "bounded-exhaustive enumeration of C03's call space x five report formats; missing rule evaluated on the rows of each cell",
+        "For every cube and call of the bounded space both cube types are evaluated under NaN, (0,False), (-1,False), (7,False) and plain 0; the missing set must equal "
+        "the rule computed from the rows of each cell, pair validity must describe the same set, values must agree on non-missing cells and plain 0 must be 0 on missing cells.",
+        "valid_count with plain 0 under propagation excluded as documented; sentinel storage not compared.",
+        "7 (C04)",
+    ),
+    "C05": (
+        "exploration", "enum",
+        "bounded-exhaustive metamorphic enumeration: every combination of per-dimension re-encodings via shift_common vs. the base encoding",
+        "For every data vector and call, every combination (v_1..v_D) in (0..E+1)^D of common values (incl. two values absent from the data) is applied with the "
+        "library's own shift_common and the cube output must equal the base; then re-normalised and compared again; dense content must be unchanged.",
+        "Explicit shape contains every common value used.",
+        "7 (C05)",
+    ),
     "C08": (
         "exploration", "enum",
         "bounded-exhaustive enumeration of all operand pairs/lists over small universes vs. set-algebra reference model",
